@@ -215,6 +215,46 @@ def parser_table_rule(ck, facts):
                 if nm.endswith("SparqlNumber::try_parse_integer"):
                     got[name] = "integer"
                     break
+    # xsd:boolean: lexical space {true, false, 1, 0}; Rust's <bool as FromStr> only knows the first two
+    for bi in range(len(fn.blocks)):
+        bs = bool_switch(fn, bi)
+        if not bs or bs[0][0] != "call" or not call_name_matches(bs[0][1], r"PartialEq.*for str>::eq$|cmp::PartialEq(<.*>)?>?::eq$"):
+            continue
+        if not any(c[0] == "const" and c[1].get("kind") == "str" and c[1].get("v") == "boolean" for c in (fn.origin(a) for a in bs[0][1]["args"])):
+            continue
+        region = {rb for rb in fn.reachable(bs[1], avoid={bs[2]}) if edge_dominates(fn, (bi, bs[1]), rb)}
+        consts = set()
+        parses_bool = False
+
+        def walk(x):
+            if isinstance(x, dict):
+                if x.get("kind") == "str" and isinstance(x.get("v"), str):
+                    consts.add(x["v"])
+                for v in x.values():
+                    walk(v)
+            elif isinstance(x, list):
+                for v in x:
+                    walk(v)
+        for c in facts.with_closures(fn):
+            blocks = region if c is fn else range(len(c.blocks))
+            if c is not fn and not any(st[0] == "=" and st[2][0] == "agg" and st[2][1].get("def") == c.id for rb in region for st in fn.blocks[rb]["s"]):
+                continue
+            for rb in blocks:
+                walk(c.blocks[rb]["s"])
+                t = c.blocks[rb]["t"]
+                if t["t"] == "call":
+                    walk(t["args"])
+                    if call_name_matches(t, r"core::str::<impl str>::parse$") and (t["f"].get("substs") or [""])[0] == "bool":
+                        parses_bool = True
+        if parses_bool or not {"true", "false", "1", "0"} <= consts:
+            ck.bad("R14.4", "R14.4@try_from_literal#boolean", "xsd:boolean literals get their value from %s: the lexical space of xsd:boolean is "
+                   "{true, false, 1, 0}, so \"1\"^^xsd:boolean is treated as ill-typed (FILTER drops it, ORDER BY sorts it before false)"
+                   % ("str::parse::<bool>" if parses_bool else "a match on %s" % sorted(consts & {"true", "false", "1", "0"})), fn.loc)
+        else:
+            ck.ok("R14.4", "xsd:boolean: the four lexical forms true/false/1/0 are mapped explicitly")
+        break
+    else:
+        ck.bad("R14.4", "R14.4@try_from_literal#boolean-anchor", "anchor-missing: the `boolean` arm of try_from_literal", fn.loc)
     for name, ty in sorted(PARSERS.items()):
         if got.get(name) == ty:
             ck.ok("R14.4", "xsd:%s parsed as %s" % (name, ty))
@@ -336,6 +376,33 @@ def promotion_table_rule(ck, facts):
         ck.ok("R14.6", "coercing_operator: all 25 operand-type pairs promote to the wider type, symmetrically")
 
 
+def exact_numeric_order_rule(ck, facts):
+    """R14.7: SPARQL's `<` on numbers promotes the operands to the wider type (R14.6), which is lossy (16777217 -> 1.6777216E7 as
+    a float): 16777216 = 1.6777216E7 = 16777217 while 16777216 < 16777217, so `<` is not a preorder across numeric types.  A
+    comparator for ORDER BY therefore has to treat pairs of numbers itself (exact values); delegating them to the operator
+    used by FILTER is reported."""
+    fn = find(ck, facts, "R14.7", r"expression::EvalResult::sparql_order_by$", "EvalResult::sparql_order_by")
+    if fn is None:
+        return
+    special = False
+    for c in facts.with_closures(fn):
+        for _, t in c.calls():
+            nm = t["f"].get("res_name") or t["f"].get("name") or ""
+            if re.search(r"::as_number$|_number::SparqlNumber::|SparqlNumber as ", nm):
+                special = True
+        for b in c.blocks:
+            t = b["t"]
+            if t["t"] == "switch" and str((t.get("variants") or {}).get("enum", "")).endswith(("value::SparqlValue", "_number::SparqlNumber")):
+                special = True
+    if special:
+        ck.ok("R14.7", "sparql_order_by compares pairs of numbers itself (whether exactly is not decided)")
+    else:
+        ck.bad("R14.7", "R14.7@EvalResult::sparql_order_by#numbers-ordered-by-lossy-lt", "sparql_order_by hands every pair of values to sparql_cmp, the "
+               "operator `<` of FILTER, whose numeric promotion is lossy: 16777216 = \"1.6777216E7\"^^xsd:float = 16777217 but 16777216 < "
+               "16777217, so the comparator is not a preorder and the result order depends on the enumeration order of the store "
+               "([16777217, 1.6777216E7, 16777216] for ASC: findings/C14_lossy_promotion_in_order_by.rs)", fn.loc)
+
+
 def run(ck, facts, tier):
     facts.require_crates(["sophia_sparql"])
     cmp_bindings_rule(ck, facts)
@@ -343,6 +410,7 @@ def run(ck, facts, tier):
     parser_table_rule(ck, facts)
     operand_order_rule(ck, facts)
     promotion_table_rule(ck, facts)
+    exact_numeric_order_rule(ck, facts)
     # R14.3
     fns = [f for f in facts.fns.values() if f.crate == "sophia_sparql" and re.search(r"order_by", f.name)]
     sites = []
